@@ -92,6 +92,34 @@ def w_serialize(api: str, cls: str, seq, shared_key=None, stream_name: str = "")
     return gen
 
 
+def w_stream_frames(api: str, cls: str, seq, frame_size: int = 2):
+    """The integration's stream_frames() over a statement generator, stepped frame by frame."""
+
+    def gen(shared: dict):
+        if api == "generic":
+            from pyjelly.integrations.generic import serialize as ser  # noqa: PLC0415
+        else:
+            from pyjelly.integrations.rdflib import serialize as ser  # noqa: PLC0415
+        opts = DR.make_options(cls, PRESET, frame_size, True, generalized=False, rdf_star=False)
+        stream = DR.g_stream(cls, opts) if api == "generic" else DR.r_stream(cls, opts)
+        conv = T.st_to_generic if api == "generic" else T.st_to_rdflib
+        out = []
+        it = ser.stream_frames(stream, (conv(s) for s in seq))
+        yield
+        for fr in it:
+            out.append(_bytes(fr))
+            yield
+        if api == "rdflib" and cls == "graph":
+            # (this path regroups the quads in an rdflib container: own order; compare content)
+            from mc import jspec, jwire  # noqa: PLC0415
+
+            _, per = jspec.decode_frames(jwire.read_delimited(b"".join(out)), finish=False)
+            return repr(sorted(jspec.statements(per), key=repr))
+        return b"".join(out).hex()
+
+    return gen
+
+
 def w_parse(api: str, mode: str, data: bytes):
     def gen(shared: dict):
         out = []
@@ -149,6 +177,9 @@ def step_workloads() -> dict:
         "parse-rdflib-noncanonical-2": w_parse("rdflib", "flat", fixed_stream("triple", NC3B)),
         "ser-shared-opts-1": w_serialize("generic", "triple", S3, "shared"),
         "ser-shared-opts-2": w_serialize("generic", "triple", S3B, "shared"),
+        # GraphStream fed from quad generators through stream_frames(), several frames each
+        "frames-rdflib-graph-a": w_stream_frames("rdflib", "graph", S4, 6),
+        "frames-rdflib-graph-b": w_stream_frames("rdflib", "graph", S4B + S4[:1], 6),
         # two streams with the default 4000/150/32 tables whose slots hold different strings
         "parse-generic-default-a": w_parse("generic", "flat", default_stream(S3)),
         "parse-rdflib-default-b": w_parse("rdflib", "flat", default_stream(SDB)),
@@ -488,6 +519,27 @@ def _probe_thunks():
 
     for cls in ("triple", "quad"):
         yield f"generic-{cls}-explicit-flow", explicit_flow(cls)
+    def single_with_metadata():
+        # one non-delimited frame that carries several metadata entries (a map field)
+        import io as _io  # noqa: PLC0415
+
+        from pyjelly.serialize.flows import ManualFrameFlow  # noqa: PLC0415
+        from pyjelly.serialize.ioutils import write_single  # noqa: PLC0415
+
+        opts = DR.make_options("triple", PRESET, 250, False, generalized=False, rdf_star=False)
+        opts.flow = ManualFrameFlow(logical_type=opts.logical_type)
+        stream = DR.g_stream("triple", opts)
+        stream.enroll()
+        for st in S3:
+            stream.triple(T.st_to_generic(st))
+        frame = stream.flow.to_stream_frame()
+        for i in range(8):
+            frame.metadata[f"key-{i}-{'x' * i}"] = bytes([i]) * (i + 1)
+        out = _io.BytesIO()
+        write_single(frame, out)
+        return hashlib.sha256(out.getvalue()).hexdigest()
+
+    yield "generic-single-frame-with-metadata", single_with_metadata
     yield "generic-empty-sink", empty_sink
     for api in ("generic", "rdflib"):
         yield f"{api}-ns-parse", ns_parse(api)
